@@ -30,6 +30,9 @@ impl Path {
     #[verifier::external_body]
     pub fn exists(&self) -> bool { unimplemented!() }
 }
+/// `s.contains("literal")` on a str / String (R23): NO contract, any answer is possible
+#[verifier::external_body]
+pub fn str_contains_lit(s: &str, pat: &str) -> bool { unimplemented!() }
 #[verifier::external_body]
 pub struct OsStr { p: core::marker::PhantomData<u8> }
 #[verifier::external_body]
@@ -126,6 +129,7 @@ pub open spec fn inserted(ops: Seq<DbOp>, files: Seq<(RelativePathToSourceFile, 
 
 // ---- real code under contract --------------------------------------------------------
 //@fn rel=crates/isograph_compiler/src/source_files.rs name=read_iso_literals_from_folder vis=pub ret=r serves=C20
+//@rw R23
 //@hsub "<TCompilationProfile: CompilationProfile>" => "<TCompilationProfile: CompilationProfile>"
 //@sub "for \(relative_path, content\) in\s*read_files_in_folder\(folder, db\.get_current_working_directory\(\)\)\?\s*\{" => "let files_read = read_files_in_folder(folder, db.get_current_working_directory())?; let ghost files0 = files_read@; for (relative_path, content) in itf: files_read {" n=1
 //@contract
@@ -146,6 +150,7 @@ pub open spec fn inserted(ops: Seq<DbOp>, files: Seq<(RelativePathToSourceFile, 
 //@end
 
 //@fn rel=crates/isograph_compiler/src/source_files.rs name=remove_iso_literals_from_folder vis=pub serves=C20
+//@rw R23
 //@sub "pathdiff::diff_paths\(folder, PathBuf::from\(current_working_directory\.lookup\(\)\)\)\s*\.expect\(\"Expected path to be diffable\"\)\s*\.to_string_lossy\(\)\s*\.to_string\(\)" => "relative_folder_string(folder, current_working_directory)" n=1
 //@sub "db\.remove_iso_literals_from_path\(&relative_path\)" => "db.remove_iso_literals_from_path(relative_path.as_str())" n=1
 //@contract
@@ -156,6 +161,7 @@ pub open spec fn inserted(ops: Seq<DbOp>, files: Seq<(RelativePathToSourceFile, 
 //@end
 
 //@fn rel=crates/isograph_compiler/src/source_files.rs name=create_or_update_iso_literals vis=pub ret=r serves=C20
+//@rw R23
 //@contract
     ensures
         final(db).cwd() == old(db).cwd(),
@@ -166,6 +172,7 @@ pub open spec fn inserted(ops: Seq<DbOp>, files: Seq<(RelativePathToSourceFile, 
 //@end
 
 //@fn rel=crates/isograph_compiler/src/source_files.rs name=handle_update_source_folder vis=pub ret=r serves=C20
+//@rw R23
 //@contract
     ensures
         final(db).cwd() == old(db).cwd(),
@@ -190,6 +197,7 @@ pub open spec fn inserted(ops: Seq<DbOp>, files: Seq<(RelativePathToSourceFile, 
 //@end
 
 //@fn rel=crates/isograph_compiler/src/source_files.rs name=handle_update_source_file vis=pub ret=r serves=C20
+//@rw R23
 //@contract
     ensures
         final(db).cwd() == old(db).cwd(),
